@@ -119,6 +119,9 @@ def gen_filter_case(r, adversarial=False, offsets=False):
         opts["addregion"] = True
     if r.random() < 0.4:
         opts["wipe"] = r.random() < 0.35
+        if r.random() < 0.3 and not cfg["g90e"]:
+            opts["rel"] = True       # encoding switches inside episodes: relative mode and inches together
+            opts["inch"] = True
         ops = gen.gen_episode_path(r, regions, opts)
     else:
         ops = gen.gen_path(r, regions, opts)
